@@ -70,18 +70,6 @@ Proof.
   destruct (beqb c k); auto. constructor; auto. lia.
 Qed.
 
-Lemma key_indices_wf cols names : forall pk,
-  key_indices cols names = Some pk -> wf_pk (length cols) pk.
-Proof.
-  induction names as [|k names IH]; intros pk H; cbn in H.
-  - inversion H; constructor.
-  - destruct (indices_of k 0 cols) as [|i l] eqn:E; [discriminate|].
-    destruct (key_indices cols names) as [r|]; [|discriminate]. inversion H; subst.
-    unfold wf_pk. change (i :: l ++ r) with ((i :: l) ++ r). apply Forall_app. split; [|apply IH; reflexivity].
-    pose proof (indices_of_bounds k cols 0) as B. rewrite E in B.
-    eapply Forall_impl; [|exact B]. cbn. intros; lia.
-Qed.
-
 Lemma indices_of_in k cols : forall s, In k cols -> indices_of k s cols <> [].
 Proof.
   induction cols as [|c cols IH]; intros s Hin; [inversion Hin|]. cbn.
@@ -90,14 +78,121 @@ Proof.
   unfold beqb in E. rewrite bcmp_refl in E. discriminate.
 Qed.
 
-Lemma key_indices_total cols names :
-  incl names cols -> exists pk, key_indices cols names = Some pk.
+Lemma has_dup_false l : NoDup l -> has_dup l = false.
 Proof.
-  induction names as [|k names IH]; intros Hi; cbn; [eauto|].
-  destruct IH as (r & ->); [intros x Hx; apply Hi; now right|].
-  destruct (indices_of k 0 cols) eqn:E; [|eauto].
-  exfalso. eapply indices_of_in; [|exact E]. apply Hi. now left.
+  induction 1 as [|x l Hx Hn IH]; cbn; [reflexivity|]. rewrite IH, Bool.orb_false_r.
+  destruct (existsb (Nat.eqb x) l) eqn:E; [|reflexivity].
+  apply existsb_exists in E as (y & Hy & Ey). apply Nat.eqb_eq in Ey. subst. contradiction.
 Qed.
+
+Lemma indices_of_NoDup k cols : forall s, NoDup (indices_of k s cols).
+Proof.
+  induction cols as [|c cols IH]; intros s; cbn; [constructor|].
+  destruct (beqb c k); [|apply IH]. constructor; [|apply IH].
+  intros Hin. pose proof (indices_of_bounds k cols (S s)) as B. rewrite Forall_forall in B.
+  specialize (B s Hin). lia.
+Qed.
+
+Lemma indices_of_nth k cols : forall s i, In i (indices_of k s cols) -> nth (i - s) cols [] = k.
+Proof.
+  induction cols as [|c cols IH]; intros s i Hin; cbn in Hin; [contradiction|].
+  assert (Hrec : In i (indices_of k (S s) cols) -> nth (i - s) (c :: cols) [] = k).
+  { intros H. pose proof (indices_of_bounds k cols (S s)) as B. rewrite Forall_forall in B.
+    specialize (B i H). replace (i - s) with (S (i - S s)) by lia. cbn. apply IH. exact H. }
+  destruct (beqb c k) eqn:E; [|auto].
+  destruct Hin as [->|Hin]; [|auto].
+  rewrite Nat.sub_diag. cbn. unfold beqb in E. destruct (bcmp c k) eqn:C; try discriminate.
+  now apply bcmp_eq.
+Qed.
+
+Lemma NoDup_app_intro {A} (l1 l2 : list A) :
+  NoDup l1 -> NoDup l2 -> (forall x, In x l1 -> ~ In x l2) -> NoDup (l1 ++ l2).
+Proof.
+  induction 1 as [|a l1 Ha Hn IH]; intros H2 Hd; cbn; [exact H2|].
+  constructor.
+  - intros Hin. apply in_app_or in Hin as [Hin|Hin]; [contradiction|]. eapply Hd; [now left|exact Hin].
+  - apply IH; auto. intros x Hx. apply Hd. now right.
+Qed.
+
+Lemma clash_false seen l :
+  existsb (fun i => existsb (Nat.eqb i) seen) l = false -> forall i, In i l -> ~ In i seen.
+Proof.
+  intros E i Hi Hs.
+  assert (existsb (fun i => existsb (Nat.eqb i) seen) l = true); [|congruence].
+  apply existsb_exists. exists i. split; auto. apply existsb_exists. exists i. split; auto.
+  apply Nat.eqb_refl.
+Qed.
+
+Lemma clash_false_intro seen l :
+  (forall i, In i l -> ~ In i seen) -> existsb (fun i => existsb (Nat.eqb i) seen) l = false.
+Proof.
+  intros Hd. destruct (existsb _ l) eqn:E; [|reflexivity].
+  apply existsb_exists in E as (i & Hi & Ei). apply existsb_exists in Ei as (j & Hj & Ej).
+  apply Nat.eqb_eq in Ej. subst j. exfalso. eapply Hd; eauto.
+Qed.
+
+Lemma key_indices_loop_some cols names : forall seen pk,
+  key_indices_loop cols names seen = Some pk ->
+  (forall i, In i pk -> ~ In i seen) /\ NoDup pk /\
+  (forall k, In k names -> indices_of k 0 cols <> [] /\ incl (indices_of k 0 cols) pk) /\
+  NoDup names /\ wf_pk (length cols) pk.
+Proof.
+  induction names as [|k names IH]; intros seen pk H; cbn in H.
+  - inversion H; subst. repeat split; try constructor; intros; contradiction.
+  - destruct (existsb (fun i => existsb (Nat.eqb i) seen) (indices_of k 0 cols)) eqn:Ec; [discriminate|].
+    destruct (indices_of k 0 cols) as [|j l] eqn:E; [discriminate|].
+    destruct (key_indices_loop cols names ((j :: l) ++ seen)) as [r|] eqn:Er; [|discriminate].
+    inversion H; subst pk. clear H.
+    destruct (IH _ _ Er) as (A & B & C & D & F).
+    pose proof (clash_false _ _ Ec) as Hc.
+    assert (Hdisj : forall i, In i (j :: l) -> ~ In i r).
+    { intros i Hi Hr. apply (A i Hr). apply in_or_app. now left. }
+    change (j :: l ++ r) with ((j :: l) ++ r).
+    split; [|split; [|split; [|split]]].
+    + intros i Hi. apply in_app_or in Hi as [Hi|Hi]; [now apply Hc|].
+      intros Hs. apply (A i Hi). apply in_or_app. now right.
+    + apply NoDup_app_intro; auto. rewrite <- E. apply indices_of_NoDup.
+    + intros k' [<-|Hk'].
+      * rewrite E. split; [discriminate|]. intros x Hx. apply in_or_app. now left.
+      * destruct (C k' Hk') as [C1 C2]. split; auto. intros x Hx. apply in_or_app. right. now apply C2.
+    + constructor; auto. intros Hk. destruct (C k Hk) as [_ C2]. rewrite E in C2.
+      apply (Hdisj j); [now left|]. apply C2. now left.
+    + unfold wf_pk. apply Forall_app. split; [|exact F].
+      pose proof (indices_of_bounds k cols 0) as Bd. rewrite E in Bd.
+      eapply Forall_impl; [|exact Bd]. cbn. intros; lia.
+Qed.
+
+Lemma key_indices_wf cols names pk : key_indices cols names = Some pk -> wf_pk (length cols) pk.
+Proof. intros H. now destruct (key_indices_loop_some _ _ _ _ H) as (_ & _ & _ & _ & F). Qed.
+
+Lemma key_indices_NoDup cols names pk : key_indices cols names = Some pk -> NoDup pk.
+Proof. intros H. now destruct (key_indices_loop_some _ _ _ _ H) as (_ & B & _). Qed.
+
+Lemma key_indices_names_NoDup cols names pk : key_indices cols names = Some pk -> NoDup names.
+Proof. intros H. now destruct (key_indices_loop_some _ _ _ _ H) as (_ & _ & _ & D & _). Qed.
+
+Lemma key_indices_loop_total cols names : forall seen,
+  incl names cols -> NoDup names ->
+  (forall k i, In k names -> In i (indices_of k 0 cols) -> ~ In i seen) ->
+  exists pk, key_indices_loop cols names seen = Some pk.
+Proof.
+  induction names as [|k names IH]; intros seen Hi Hn Hs; cbn; [eauto|].
+  inversion Hn as [|? ? Hk Hn']; subst.
+  rewrite clash_false_intro by (intros i Hx; eapply Hs; [now left|exact Hx]).
+  destruct (indices_of k 0 cols) as [|j l] eqn:E.
+  { exfalso. eapply indices_of_in; [|exact E]. apply Hi. now left. }
+  destruct (IH ((j :: l) ++ seen)) as (r & ->); [| |  |eauto].
+  - intros x Hx. apply Hi. now right.
+  - exact Hn'.
+  - intros k' i Hk' Hx Hin. apply in_app_or in Hin as [Hin|Hin].
+    + rewrite <- E in Hin. apply indices_of_nth in Hin. apply indices_of_nth in Hx.
+      rewrite Nat.sub_0_r in *. apply Hk. congruence.
+    + eapply Hs; [right; exact Hk'|exact Hx|exact Hin].
+Qed.
+
+Lemma key_indices_total cols names :
+  incl names cols -> NoDup names -> exists pk, key_indices cols names = Some pk.
+Proof. intros Hi Hn. apply key_indices_loop_total; auto. Qed.
 
 (** * sortBlocks *)
 
@@ -291,7 +386,7 @@ Section Characterisation.
 
   (** any sorted runs handed to IngestTableFromSorter (ingest, merge, doctor re-ingest) *)
   Lemma ingest_from_sorter_char columns pk s rows :
-    any_arrival arrive -> wf_rows (length columns) rows ->
+    any_arrival arrive -> NoDup pk -> wf_rows (length columns) rows ->
     Permutation (concat (runs_of sort_rows pk s)) rows ->
     Forall (run_sorted pk) (runs_of sort_rows pk s) ->
     exists bs kept w,
@@ -304,10 +399,10 @@ Section Characterisation.
       (forall r, In r rows -> exists p, In p kept /\
                                         dkey (length columns) pk p = dkey (length columns) pk r).
   Proof.
-    intros Harr Hwf Hperm Hsorted. unfold ingest_from_sorter, sorted_blocks.
+    intros Harr Hnd Hwf Hperm Hsorted. unfold ingest_from_sorter, sorted_blocks.
     destruct (blocks_any_runs (length columns) pk [] rows _ Hwf (wf_removed_nil _ _) Hperm Hsorted)
       as (bs & kept & E & Hc & K1 & K2 & K3 & _).
-    rewrite E.
+    rewrite E, (has_dup_false pk Hnd). cbn [andb].
     destruct (ingest_blocks_eq H arrive Harr columns pk [] kept bs Hc) as (w0 & Ei & Hw0).
     rewrite Ei. exists bs, kept. eexists. split; [reflexivity|].
     split; [|auto]. exists w0, (map b_pk bs). auto.
@@ -315,7 +410,7 @@ Section Characterisation.
 
   Lemma ingest_table_char run_size columns pknames rows :
     sort_ok (length columns) sort_rows -> any_arrival arrive ->
-    incl pknames columns -> wf_rows (length columns) rows -> cells_in_limit rows ->
+    incl pknames columns -> NoDup pknames -> wf_rows (length columns) rows -> cells_in_limit rows ->
     exists pk bs kept w,
       key_indices columns pknames = Some pk /\ wf_pk (length columns) pk /\
       ingest_table H sort_rows arrive run_size columns pknames rows =
@@ -327,12 +422,13 @@ Section Characterisation.
       (forall r, In r rows -> exists p, In p kept /\
                                         dkey (length columns) pk p = dkey (length columns) pk r).
   Proof.
-    intros Hso Harr Hpk Hwf Hc.
-    destruct (key_indices_total columns pknames Hpk) as (pk & Ek).
+    intros Hso Harr Hpk Hnd Hwf Hc.
+    destruct (key_indices_total columns pknames Hpk Hnd) as (pk & Ek).
     pose proof (key_indices_wf _ _ _ Ek) as Hwpk.
+    pose proof (key_indices_NoDup _ _ _ Ek) as Hndpk.
     destruct (sorter_runs (length columns) sort_rows run_size pk rows Hso Hwpk Hwf Hc)
       as (s & Es & Hperm & Hsorted).
-    destruct (ingest_from_sorter_char columns pk s rows Harr Hwf Hperm Hsorted)
+    destruct (ingest_from_sorter_char columns pk s rows Harr Hndpk Hwf Hperm Hsorted)
       as (bs & kept & w & Ei & R).
     exists pk, bs, kept, w. unfold ingest_table. rewrite Ek, Es. auto.
   Qed.
@@ -342,7 +438,7 @@ End Characterisation.
 
 Theorem ingest_lossless H sort_rows arrive run_size columns pknames rows :
   sort_ok (length columns) sort_rows -> any_arrival arrive ->
-  incl pknames columns -> wf_rows (length columns) rows -> cells_in_limit rows ->
+  incl pknames columns -> NoDup pknames -> wf_rows (length columns) rows -> cells_in_limit rows ->
   exists pk T tidx w,
     key_indices columns pknames = Some pk /\
     ingest_table H sort_rows arrive run_size columns pknames rows = (IOk T tidx, w) /\
@@ -355,8 +451,8 @@ Theorem ingest_lossless H sort_rows arrive run_size columns pknames rows :
                                       dkey (length columns) pk p = dkey (length columns) pk r) /\
     (NoDup (map (dkey (length columns) pk) rows) -> Permutation rows (rows_of T)).
 Proof.
-  intros Hso Harr Hpk Hwf Hc.
-  destruct (ingest_table_char H sort_rows arrive run_size columns pknames rows Hso Harr Hpk Hwf Hc)
+  intros Hso Harr Hpk Hnd Hwf Hc.
+  destruct (ingest_table_char H sort_rows arrive run_size columns pknames rows Hso Harr Hpk Hnd Hwf Hc)
     as (pk & bs & kept & w & Ek & Hwpk & Ei & Hw & Hch & K1 & K2 & K3).
   exists pk, (table_of H columns pk bs), (map b_pk bs), w.
   assert (Erows : rows_of (table_of H columns pk bs) = kept).
@@ -377,6 +473,25 @@ Proof.
   - rewrite (add_rows_refused sort_rows run_size pk rows new_sorter Ho).
     exists IErrCell. split; [reflexivity|discriminate].
   - exists IErrKey. split; [reflexivity|discriminate].
+Qed.
+
+(** a key that names a column twice (or a name that is no column) is refused with an
+    error before any row is read; nothing is written *)
+Theorem ingest_bad_key_refused H sort_rows arrive run_size columns pknames rows :
+  ~ NoDup pknames \/ ~ incl pknames columns ->
+  ingest_table H sort_rows arrive run_size columns pknames rows = (IErrKey, []).
+Proof.
+  intros Hbad. unfold ingest_table.
+  destruct (key_indices columns pknames) as [pk|] eqn:E; [|reflexivity].
+  exfalso. destruct (key_indices_loop_some _ _ _ _ E) as (_ & _ & C & D & _).
+  destruct Hbad as [Hb|Hb]; [now apply Hb|].
+  apply Hb. intros k Hk. destruct (C k Hk) as [C1 _].
+  destruct (in_dec (list_eq_dec N.eq_dec) k columns) as [Hin|Hnin]; [exact Hin|].
+  exfalso. apply C1. clear -Hnin. generalize 0. induction columns as [|c cols IH]; intros s; cbn; [reflexivity|].
+  destruct (beqb c k) eqn:Eb.
+  - unfold beqb in Eb. destruct (bcmp c k) eqn:Cb; try discriminate. apply bcmp_eq in Cb. subst.
+    exfalso. apply Hnin. now left.
+  - apply IH. intros Hx. apply Hnin. now right.
 Qed.
 
 (** a header without empty names is stored unchanged *)
@@ -443,13 +558,13 @@ Proof. unfold wf_rows. rewrite !Forall_forall. auto. Qed.
 
 Theorem ingest_wf H sort_rows arrive run_size columns pknames rows :
   sort_ok (length columns) sort_rows -> any_arrival arrive ->
-  incl pknames columns -> wf_rows (length columns) rows -> cells_in_limit rows ->
+  incl pknames columns -> NoDup pknames -> wf_rows (length columns) rows -> cells_in_limit rows ->
   exists T tidx w,
     ingest_table H sort_rows arrive run_size columns pknames rows = (IOk T tidx, w) /\
     WF_table H T tidx.
 Proof.
-  intros Hso Harr Hpk Hwf Hc.
-  destruct (ingest_table_char H sort_rows arrive run_size columns pknames rows Hso Harr Hpk Hwf Hc)
+  intros Hso Harr Hpk Hnd Hwf Hc.
+  destruct (ingest_table_char H sort_rows arrive run_size columns pknames rows Hso Harr Hpk Hnd Hwf Hc)
     as (pk & bs & kept & w & Ek & Hwpk & Ei & Hw & Hch & K1 & K2 & K3).
   exists (table_of H columns pk bs), (map b_pk bs), w. split; [exact Ei|].
   eapply table_of_wf; eauto. eapply incl_wf_rows; eauto.
@@ -458,15 +573,15 @@ Qed.
 (** arbitrary rows handed to a sorter (merge result, doctor re-ingest), then
     IngestTableFromSorter: every family of sorted runs *)
 Theorem sorter_any_rows_wf H sort_rows arrive columns pk s rows :
-  any_arrival arrive -> wf_pk (length columns) pk -> wf_rows (length columns) rows ->
+  any_arrival arrive -> wf_pk (length columns) pk -> NoDup pk -> wf_rows (length columns) rows ->
   Permutation (concat (runs_of sort_rows pk s)) rows ->
   Forall (run_sorted pk) (runs_of sort_rows pk s) ->
   exists T tidx w,
     ingest_from_sorter H sort_rows arrive columns pk s = (IOk T tidx, w) /\
     WF_table H T tidx /\ table_written_last w T.
 Proof.
-  intros Harr Hwpk Hwf Hperm Hsorted.
-  destruct (ingest_from_sorter_char H sort_rows arrive columns pk s rows Harr Hwf Hperm Hsorted)
+  intros Harr Hwpk Hndpk Hwf Hperm Hsorted.
+  destruct (ingest_from_sorter_char H sort_rows arrive columns pk s rows Harr Hndpk Hwf Hperm Hsorted)
     as (bs & kept & w & Ei & Hw & Hch & K1 & K2 & K3).
   exists (table_of H columns pk bs), (map b_pk bs), w. split; [exact Ei|]. split; [|exact Hw].
   eapply table_of_wf; eauto. eapply incl_wf_rows; eauto.
@@ -865,17 +980,17 @@ Proof. intros P Hw. unfold cells_in_limit in *. eapply Permutation_Forall; eauto
 Theorem ingest_canonical H sort1 sort2 arrive1 arrive2 rs1 rs2 columns pknames rows1 rows2 :
   sort_ok (length columns) sort1 -> sort_ok (length columns) sort2 ->
   any_arrival arrive1 -> any_arrival arrive2 ->
-  incl pknames columns -> wf_rows (length columns) rows1 -> cells_in_limit rows1 ->
+  incl pknames columns -> NoDup pknames -> wf_rows (length columns) rows1 -> cells_in_limit rows1 ->
   Permutation rows1 rows2 ->
   (forall pk, key_indices columns pknames = Some pk -> NoDup (map (dkey (length columns) pk) rows1)) ->
   exists T tidx w1 w2,
     ingest_table H sort1 arrive1 rs1 columns pknames rows1 = (IOk T tidx, w1) /\
     ingest_table H sort2 arrive2 rs2 columns pknames rows2 = (IOk T tidx, w2).
 Proof.
-  intros So1 So2 A1 A2 Hpk Hwf Hc HP Hnd.
-  destruct (ingest_table_char H sort1 arrive1 rs1 columns pknames rows1 So1 A1 Hpk Hwf Hc)
+  intros So1 So2 A1 A2 Hpk Hndn Hwf Hc HP Hnd.
+  destruct (ingest_table_char H sort1 arrive1 rs1 columns pknames rows1 So1 A1 Hpk Hndn Hwf Hc)
     as (pk & bs1 & kept1 & w1 & Ek & Hwpk & Ei1 & _ & Hch1 & K1 & K2 & K3).
-  destruct (ingest_table_char H sort2 arrive2 rs2 columns pknames rows2 So2 A2 Hpk
+  destruct (ingest_table_char H sort2 arrive2 rs2 columns pknames rows2 So2 A2 Hpk Hndn
               (perm_wf_rows _ _ _ HP Hwf) (perm_cells _ _ HP Hc))
     as (pk' & bs2 & kept2 & w2 & Ek' & _ & Ei2 & _ & Hch2 & L1 & L2 & L3).
   rewrite Ek in Ek'. inversion Ek'; subst pk'.
@@ -916,7 +1031,7 @@ Theorem table_id_distinct H Hb Hi Ht sort1 sort2 arrive1 arrive2 rs1 rs2 cols1 p
   (forall a b, Hb a = Hb b -> a = b) -> (forall a b, Ht a = Ht b -> a = b) ->
   sort_ok (length cols1) sort1 -> sort_ok (length cols2) sort2 -> any_arrival arrive1 -> any_arrival arrive2 ->
   names_nonempty cols1 -> names_nonempty cols2 ->
-  incl pkn1 cols1 -> incl pkn2 cols2 ->
+  incl pkn1 cols1 -> incl pkn2 cols2 -> NoDup pkn1 -> NoDup pkn2 ->
   wf_rows (length cols1) rows1 -> wf_rows (length cols2) rows2 -> cells_in_limit rows1 -> cells_in_limit rows2 ->
   key_indices cols1 pkn1 = Some pk1 -> key_indices cols2 pkn2 = Some pk2 ->
   NoDup (map (dkey (length cols1) pk1) rows1) -> NoDup (map (dkey (length cols2) pk2) rows2) ->
@@ -925,10 +1040,10 @@ Theorem table_id_distinct H Hb Hi Ht sort1 sort2 arrive1 arrive2 rs1 rs2 cols1 p
   table_id Hb Hi Ht T1 = table_id Hb Hi Ht T2 ->
   cols1 = cols2 /\ pk1 = pk2 /\ Permutation rows1 rows2.
 Proof.
-  intros Hbi Hti So1 So2 A1 A2 N1 N2 I1 I2 W1 W2 C1 C2 K1 K2 D1 D2 E1 E2 Eid.
-  destruct (ingest_lossless H sort1 arrive1 rs1 cols1 pkn1 rows1 So1 A1 I1 W1 C1)
+  intros Hbi Hti So1 So2 A1 A2 N1 N2 I1 I2 U1 U2 W1 W2 C1 C2 K1 K2 D1 D2 E1 E2 Eid.
+  destruct (ingest_lossless H sort1 arrive1 rs1 cols1 pkn1 rows1 So1 A1 I1 U1 W1 C1)
     as (pk1' & T1' & x1' & w1' & Ek1 & Ei1 & _ & Ec1 & Ep1 & _ & _ & _ & _ & P1).
-  destruct (ingest_lossless H sort2 arrive2 rs2 cols2 pkn2 rows2 So2 A2 I2 W2 C2)
+  destruct (ingest_lossless H sort2 arrive2 rs2 cols2 pkn2 rows2 So2 A2 I2 U2 W2 C2)
     as (pk2' & T2' & x2' & w2' & Ek2 & Ei2 & _ & Ec2 & Ep2 & _ & _ & _ & _ & P2).
   assert (X1 : pk1' = pk1) by congruence. assert (X2 : pk2' = pk2) by congruence.
   assert (Y1 : T1' = T1) by congruence. assert (Y2 : T2' = T2) by congruence.
